@@ -130,6 +130,14 @@ func apply(api string, args []cty.Value, x J) (cty.Value, error) {
 	case "UnmarkDeep":
 		v, _ := args[0].UnmarkDeep()
 		return v, nil
+	case "TransformMarkLeaves":
+		// a transformation whose callback marks every known primitive leaf
+		return cty.Transform(args[0], func(p cty.Path, v cty.Value) (cty.Value, error) {
+			if v.IsKnown() && !v.IsNull() && v.Type().IsPrimitiveType() {
+				return v.Mark("m2"), nil
+			}
+			return v, nil
+		})
 	case "IsWhollyKnown":
 		return cty.BoolVal(args[0].IsWhollyKnown()), nil
 	case "IsKnown":
